@@ -1,5 +1,6 @@
 import WebPkg.Properties.C20Base
 import WebPkg.Properties.C20Compose
+import WebPkg.Properties.C20Har
 /-
   C20 — Command-line tools compose. Root of the property:
   * `Properties/C20Base.lean` (namespace `WebPkg.C20`): the file-path → URL mapping, the directory walk of `gen-bundle -dir`
@@ -11,6 +12,8 @@ import WebPkg.Properties.C20Compose
       `gen_certurl_signedexchange_verifies`),
       gen-bundle -dir → sign-bundle signatures-section → dump-bundle (`dir_bundle_signed_verifies`),
       gen-bundle -dir → sign-bundle integrity-block (`dir_bundle_integrity_block`).
+  * `Properties/C20Har.lean` (namespace `WebPkg.C20Har`): `gen-bundle -har` (Model/HarWalk.lean, the model of cmd/gen-bundle/fromhar.go):
+      which entries are kept, header hygiene, the duplicate-URL rule, and gen-bundle -har → bundle reader (`har_bundle_read_back`).
     (That file also holds its helper lemmas, prefixed `cc_`; they are not property statements.)
   Both are audited by `Audit/C20.lean`.
 -/
